@@ -140,13 +140,13 @@ def check_C17(ctx):
         ctx.known.append("swap_face_indices leaves the stored definition of a deferred-deleted cell unrelabeled (D13; replay corpus/kernel/known-findings.scripts)")
 
 def check_C02(ctx):
-    kernel_property(ctx, "C02", "Props/Properties_C02.v", ["valid", "recycle", "setops"], {"DelV", "DelE", "DelF", "DelC", "GC", "EnDef"},
+    kernel_property(ctx, "C02", "Props/Properties_C02.v", ["valid", "axis", "recycle", "setops"], {"DelV", "DelE", "DelF", "DelC", "GC", "EnDef"},
                     assumptions=["cache exactness (vbu_ok/ebu_ok/fbu_ok) and the size invariant are hypotheses of the deferred-mode theorems; the size invariant is proved for every "
                                  "reachable state, cache exactness is evaluated by the sound decision procedures of Kernel/InvB.v on every model state the run visits",
                                  "the immediate and fast modes (renumbering) are covered by lock step + oracle, not by a theorem; the oracle identifies vertices by position tokens"])
 
 def check_C12(ctx):
-    kernel_property(ctx, "C12", "Props/Properties_C12.v", ["toggles", "valid", "recycle", "swaps"],
+    kernel_property(ctx, "C12", "Props/Properties_C12.v", ["toggles", "axis", "valid", "recycle", "swaps"],
                     {"DelV", "DelE", "DelF", "DelC", "SwapV", "SwapE", "SwapF", "SwapC", "GC", "EnVBU", "EnEBU", "EnFBU", "EnDef", "AddE", "AddFV", "AddC"},
                     assumptions=["'no operation reads a disabled cache out of range' is decided on the real library by ASan/UBSan/_GLIBCXX_ASSERTIONS on every lock-step run "
                                  "(all 8 incidence subsets x 4 deletion modes) and by the twin-mesh oracle, not by a theorem (the model totalises vector reads)",
@@ -164,6 +164,13 @@ def check_C01(ctx):
                     assumptions=["preservation of the invariant by every incremental update is not proved (see Properties_C01.v); it is checked by sound extracted decision "
                                  "procedures on every explored model state, which is compared cache for cache with the library",
                                  "valid histories: live-handle arguments, no halfface in two live cells, no face listing a halfedge twice"])
+    # known finding: on cells that are not closed surfaces the re-ordering can corrupt a halfface list; reported when the
+    # recorded replay still shows the duplicate
+    if any(f.get("id") == "nonmanifold-cells-reorder" for f in fw.known_findings("C01")):
+        blk = ctx.kernel_run.corpus_final.get("nonmanifold-cells-reorder", []) if getattr(ctx, "kernel_run", None) else []
+        hfs = [l for l in blk if l.startswith("HFS ")]
+        if hfs and hfs[0].startswith("HFS [6 2 0 2 4]"):
+            ctx.known.append("add_cell on cells that are not closed surfaces leaves the halffaces of halfedge 0 as [6 2 0 2 4] (duplicate 2, halfface 8 lost); replay corpus/kernel/known-findings.scripts#nonmanifold-cells-reorder")
     # the derived queries: theorems of the iterator component + its query lock step / brute-force oracle on every accessor
     try:
         import checks_iter
